@@ -368,11 +368,17 @@ func (s *c02Sys) Check() ([]*engine.Violation, int64) {
 	// read-only requests must not create buckets in the model under auto-bucket
 	// in a way that differs from the implementation: evaluate against a copy of
 	// the bucket set and apply the same auto-creation to the model.
-	names, lr := s.w.ListBuckets()
+	inOrder, lr := s.w.ListBucketsInOrder()
+	names := append([]string{}, inOrder...)
+	sort.Strings(names)
 	evals++
 	want := s.m.BucketNames()
 	if lr.Status != 200 || strings.Join(names, ",") != strings.Join(want, ",") {
 		add("list-buckets", "-", "names", fmt.Sprintf("ListBuckets %s = %v, want %v", lr.Short(), names, want))
+	} else if strings.Join(inOrder, ",") != strings.Join(names, ",") {
+		// S3 lists buckets by name, and so do the backends that keep them sorted: the
+		// answer to the same request must not depend on the backend (or on map order)
+		vs = append(vs, viol(sig(s.propID, wk, "after:any", "list-buckets", "-", "order"), "ListBuckets answers %v, want them in the order %v", inOrder, names))
 	}
 	for _, b := range s.u.buckets {
 		exists := s.m.Has(b)
